@@ -127,6 +127,10 @@ func (o *orbitDBAccessController) CanAppend(entry logac.LogEntry, p identityprov
 
 	for _, k := range access {
 		if k == entry.GetIdentity().ID || k == "*" {
+			if err := accesscontroller.VerifyEntryIdentity(entry); err != nil {
+				return err
+			}
+
 			return p.VerifyIdentity(entry.GetIdentity())
 		}
 	}
